@@ -276,6 +276,9 @@ fn chaos_delay(kind: u32) {
 
 /// harness-level preemption point
 #[inline] pub fn point() { hook(H_POINT, rv::KIND_POINT) }
+/// a preemption point inside the payload type's own code (`Default`, `Drop`): foreign code from the library's point of view, which may take any time -- wherever
+/// the library calls it, another thread may get to run (threads that are not part of a conducted run get the random delays of the free-running lanes, if they asked for them; no effect while a thread is being torn down)
+#[inline] pub fn point_in_payload_code() { if TL.try_with(|_| ()).is_ok() { hook(H_POINT, rv::KIND_POINT) } }
 /// harness-level: "an operation of my script completed" -- a preemption point that also proves progress
 #[inline] pub fn op_done() { hook(H_OP, rv::KIND_POINT) }
 /// harness-level retry loop: somebody else has to run
